@@ -43,10 +43,22 @@ class Lock:
         self.f.close()
 
 
-def regen():
-    """Regenerate coq/Gen from the working tree.  Returns (ok, message)."""
+def regen(pid=None):
+    """Regenerate coq/Gen from the working tree.  Returns (ok, message).  A failing generator
+    only counts against the properties it serves (`SERVES` of its plug-in; default all)."""
     rc, out = sh([PY, os.path.join(ROOT, "tools", "gen.py")], env=impl_env(), timeout=600)
-    return rc == 0, out.strip()
+    if rc == 0:
+        return True, ""
+    mine = []
+    for line in out.splitlines():
+        m = re.match(r"translation failed: (\S+) serves=(\S+): (.*)", line)
+        if m:
+            serves = m.group(2).split(",")
+            if pid is None or "*" in serves or pid in serves:
+                mine.append(line)
+        elif line.strip():
+            mine.append(line)
+    return (not mine), "\n".join(mine).strip()
 
 
 def coq_project():
@@ -331,7 +343,7 @@ def prove(ctx, timeout=1500):
     """Steps 1-2 of the verdict protocol.  Returns True when regeneration and all proof
     obligations of the property went through."""
     with Lock():
-        ok, msg = regen()
+        ok, msg = regen(ctx.pid)
         if not ok:
             ctx.broken = ("translator", msg)
             return False
